@@ -619,9 +619,24 @@ class Facade:
             return self.root + (path if path.startswith("/") else "/" + path)
         return path
 
+    def chdir(self, path):
+        """Make a world directory the working directory of the run (native facades with
+        relative=True only): the simulated one on the stub, a real chdir on the real-OS slice."""
+        global _SIM_CWD
+        if not self.relative:
+            raise ValueError("chdir needs relative=True")
+        if self.kind == "native":
+            _SIM_CWD = norm(path)
+        elif self.kind == "realos":
+            _real_os.chdir(self.root + norm(path))
+        self._cwd = norm(path)
+
     def unroot(self, path):
         if self.root and isinstance(path, str) and path.startswith(self.root):
             return path[len(self.root):] or "/"
+        if isinstance(path, str) and not path.startswith("/") and getattr(self, "_cwd", None) \
+                and self.native_like:
+            return posixpath.normpath(self._cwd.rstrip("/") + "/" + path)
         return path
 
     def open(self, path, mode, **kw):
